@@ -250,6 +250,23 @@ class Reduced:
                     work.append(k)
         return dist, choice
 
+    def can_finish(self, accept=None):
+        """States from which `everybody done` is reachable along SOME path (for some values of the inputs still to be
+        read).  A doomed state outside this set is a trap whatever the remaining inputs are."""
+        ok = set(k for k in self.states if self.is_done(k) or (accept is not None and accept(k)))
+        pred = defaultdict(set)
+        for k, sc in self.succ.items():
+            for (t, e, k2, sets) in sc:
+                pred[k2].add(k)
+        work = list(ok)
+        while work:
+            k2 = work.pop()
+            for k in pred[k2]:
+                if k not in ok:
+                    ok.add(k)
+                    work.append(k)
+        return ok
+
     def path_to(self, k):
         """Schedule (list of (thread, edge)) from the initial state to state key k."""
         steps = []
